@@ -42,6 +42,16 @@ def gen_cases(tier, seed):
                  "currents": S.current_spec(rng, dev, o, "const" if nt else "none"),
                  "epsilon": {"kind": str(rng.choice(["one", "spatial", "time", "const"])), "value": -0.5}}
         cases.append({"layer": "L2", "device": dev, "options": o, "drive": drive, "monitors": ["step"], "cost": 30 if scr else 8, "solve_twice": bool(k % 2)})
+    for k in range(2 if tier == "quick" else 8):
+        # screening (several Polyak iterations per step) on a biased device: mu changes from step to step, every iteration starts from (psi^n, mu^n)
+        dev = zoo.gen_device(rng, n_terminals=2, n_holes=0, probes=0, size="tiny")
+        dev["layer"]["lam"], dev["layer"]["d"] = 2.0, 0.1
+        o = S.base_options(rng, adaptive=True, steps=40, screening=True)
+        o.update(screening_tolerance=1e-4, max_iterations_per_step=3000)
+        if k % 2:
+            o.update(dt_init=0.05, dt_max=0.5, max_solve_retries=25, adaptive_window=2, solve_time=4.0)  # retried steps as well
+        drive = {"A": S.field_spec(rng, dev, o, "uniform", b=0.25), "currents": S.current_spec(rng, dev, o, ["const", "callable"][k % 2], strength=0.3), "epsilon": {"kind": "one"}}
+        cases.append({"layer": "L2", "device": dev, "options": o, "drive": drive, "monitors": ["step"], "cost": 30})
     return cases
 
 
